@@ -20,7 +20,11 @@ func VerifHarness_C03() {
 	asgMin := verifInt("asg.min", 0, int64(N)+1)
 	asgMax := verifInt("asg.max", 1, int64(N)+3)
 	extra := verifInt("asg.extraDesired", 0, 2)
-	verifAssume(asgMin < asgMax)
+	if auto == 1 {
+		verifAssume(asgMin <= asgMax) // a cloud group pinned to one size is legal
+	} else {
+		verifAssume(asgMin < asgMax)
+	}
 	var minEff, maxEff int64
 	if auto == 1 {
 		o.MinNodes, o.MaxNodes = 0, 0
